@@ -17,7 +17,56 @@ from .report import Report
 from .units import AnalysisBroken
 
 
+def _rename_locals(root, relfile):
+    """Behaviour-preserving refactor: every local variable and parameter of every function defined in the file gets
+    a new name (fields after -> or . and struct designators are left alone)."""
+    import re
+    path = os.path.join(root, relfile)
+    name = os.path.basename(relfile)
+    allu = units.all_units()
+    if name not in allu:
+        return "unit %s is not analysed" % name
+    facts = units.extract(name, allu[name][0], allu[name][1])
+    lines = open(path, encoding="utf-8", errors="surrogateescape").read().split("\n")
+    for f in facts["functions"]:
+        lo, hi = f["loc"]
+        names = set(p["name"] for p in f.get("params", []) if p["name"])
+        for b in f.get("blocks", []):
+            for st in b["stmts"]:
+                stack = [st]
+                while stack:
+                    n = stack.pop()
+                    if isinstance(n, dict):
+                        if n.get("k") == "decl":
+                            names.add(n["name"])
+                        stack.extend(v for v in n.values() if isinstance(v, (dict, list)))
+                    elif isinstance(n, list):
+                        stack.extend(n)
+        names = [n for n in names if n and not n.startswith("__")]
+        if not names:
+            continue
+        rx = re.compile(r"(?<![\w>.])(?<!->)(" + "|".join(re.escape(n) for n in sorted(names, key=len, reverse=True)) + r")(?![\w])")
+        for i in range(max(lo - 1, 0), min(hi, len(lines))):
+            ln = lines[i]
+            if ln.lstrip().startswith("#"):
+                continue
+            # do not touch string literals
+            parts = re.split(r'("(?:[^"\\]|\\.)*")', ln)
+            for k in range(0, len(parts), 2):
+                parts[k] = rx.sub(lambda m: m.group(1) + "_rn", parts[k])
+            lines[i] = "".join(parts)
+    with open(path, "w", encoding="utf-8", errors="surrogateescape") as fh:
+        fh.write("\n".join(lines))
+    return None
+
+
 def _apply(root, spec):
+    if spec.get("kind") == "rename_locals":
+        for f in spec["files"]:
+            err = _rename_locals(root, f)
+            if err:
+                return err
+        return None
     edits = spec.get("edits") or [spec]
     for e in edits:
         p = os.path.join(root, e["file"])
@@ -70,7 +119,9 @@ def _one(args):
 
 
 def run(prop, mod, specs=None, only=None):
-    specs = specs if specs is not None else getattr(mod, "SELFTEST", [])
+    specs = specs if specs is not None else list(getattr(mod, "SELFTEST", []))
+    if getattr(mod, "RENAME_LOCALS", None) and not only:
+        specs = specs + [dict(id="rename-locals-neutral", kind="rename_locals", files=list(mod.RENAME_LOCALS), expect=None)]
     if only:
         specs = [s for s in specs if s["id"] in only]
     res = {"mutants": 0, "neutral": 0, "ok": 0, "skipped": [], "failed": [], "details": []}
